@@ -31,6 +31,12 @@ func RE(x interface{}) Acc { return Acc{x, "[]", false, 'r'} }
 func WE(x interface{}) Acc { return Acc{x, "[]", true, 'w'} }
 func AE(x interface{}) Acc { return Acc{x, "[]", true, 'a'} }
 
+// RO / WO: a method call on an object of another package that is not safe for concurrent use
+// (vellum readers and iterators, roaring bitmaps and their iterators, ...), identified by its
+// address; WO when the method mutates the object.
+func RO(x interface{}) Acc { return Acc{x, "*", false, 'o'} }
+func WO(x interface{}) Acc { return Acc{x, "*", true, 'O'} }
+
 var Steps int64
 
 // PollHook, when non-nil, is called (outside explorations) before every `select` statement of
